@@ -68,6 +68,15 @@ fn main() {
             eprintln!("vfh: {} runs, {} diverged steps", n, div);
         }
         "blk" => blk::run_file(&args[2], &args[3]),
+        "mkreq" => {
+            // print the htlc_accepted params for every HTLC of a scenario (Engine C builds its requests with this)
+            let scen: driver::Scenario = serde_json::from_str(&std::fs::read_to_string(&args[2]).expect("scenario")).expect("scenario json");
+            let mut cache = std::collections::HashMap::new();
+            let reqs: Vec<serde_json::Value> = scen.htlcs.iter().enumerate()
+                .map(|(k, h)| cat::request_json(k as u64 + 1, h, &scen.invs, &mut cache)).collect();
+            println!("{}", serde_json::json!({"local": cat::local_pubkey().to_string(), "reqs": reqs,
+                "preimages": (1..=cat::MAX_HASHES).map(|k| hex::encode(cat::preimage(k))).collect::<Vec<_>>()}));
+        }
         "wire" => wire::run_file(&args[2], &args[3]),
         "fee" => pure::fee(&args[2], &args[3]),
         "tlv" => pure::tlv(&args[2], &args[3]),
